@@ -158,7 +158,15 @@ Definition push_cases : list bytes :=
     [x4e; xff; xff; xff; xff; x01]; [x4e; x00; x00; x00; x80; x01] ]
   ++ flat_map (fun n => let p := push_of (repeat x07 n) in [p; p ++ [x51]; x51 :: p; p ++ p; removelast p])
        [0; 1; 2; 75; 76; 77; 255; 256; 257]%nat.
-Definition script_candidates : list bytes := script_mutants script_templates ++ push_cases ++ all_scripts_le2.
+(** public keys of every version byte 2..8 and the lengths around 33 and 65, followed by OP_CHECKSIG; multisig scripts with
+    an empty part (an OP_PUSHDATA1 of no bytes) in each position *)
+Definition p2pk_cases : list bytes :=
+  flat_map (fun v => map (fun n => push_of (v :: repeat x11 (n - 1)) ++ [xac]) [32; 33; 34; 64; 65; 66]%nat) [x02; x03; x04; x05; x06; x07; x08].
+Definition multisig_cases : list bytes :=
+  [ [x51; x4c; x00; x51; xae]; [x51; x01; x02; x4c; x00; x52; xae]; [x51; x4c; x00; x01; x02; x52; xae]; [x51; x01; x02; x01; x03; x4c; x00; x52; xae];
+    [x4c; x00; x01; x02; x51; xae]; [x51; x01; x02; x4c; x00; xae]; [x51; x01; x02; x51; x4c; x00]; [x51; x01; x02; x51; xaf]; [x60; x01; x02; x60; xae];
+    [x61; x01; x02; x51; xae]; [x51; x01; x02; x61; xae]; [x50; x01; x02; x51; xae]; [x51; x51; x51; x51; xae] ].
+Definition script_candidates : list bytes := script_mutants script_templates ++ push_cases ++ p2pk_cases ++ multisig_cases ++ all_scripts_le2.
 Definition show_script (b : bytes) : string := ("hex:" ++ hex_bytes b)%string.
 
 (** part lists (the input of EncodeParts, the output of DecodeParts) with the boundary lengths *)
